@@ -1,13 +1,19 @@
 #!/bin/bash
-# usage: trymutant.sh <patch.diff> <Cxx> [<Cyy> ...]   applies the patch to /repo, runs the quick checks, reverts.
+# usage: trymutant.sh <name> <patch.diff> <Cxx> [<Cyy> ...]
+# Applies the patch to a scratch worktree of /repo (never to /repo itself), and runs the checks of a snapshot of the
+# committed /verif against it (so that editing /verif meanwhile does not disturb the trial). Prints one line per check.
 set -u
-PATCH=$1; shift
-cd /repo || exit 2
-if [ -n "$(git status --porcelain)" ]; then echo "trymutant: /repo is not clean"; exit 2; fi
-git apply "$PATCH" || { echo "trymutant: patch does not apply"; exit 2; }
-trap 'git -C /repo checkout -- . ; git -C /repo clean -fdq' EXIT
+NAME=$1; PATCH=$2; shift 2
+WT=/dev/shm/mt-$NAME
+VC=$(git -C /verif rev-parse --short HEAD)
+VS=/dev/shm/verif-snap-$VC
+if [ ! -d "$VS" ]; then git -C /verif worktree add --detach "$VS" HEAD -q || exit 2; fi
+git -C /repo worktree remove --force "$WT" 2>/dev/null
+git -C /repo worktree add --detach "$WT" HEAD -q || exit 2
+( cd "$WT" && git apply "$PATCH" ) || { echo "trymutant: patch does not apply"; git -C /repo worktree remove --force "$WT"; exit 2; }
 for P in "$@"; do
-  out=$(cd /verif && BSIM_NO_EVIDENCE=1 ./check "$P" "${TIER:-quick}" 2>&1); rc=$?
-  echo "== $P exit=$rc"
-  echo "$out" | grep -E "^VIOLATION|^bsim: C[0-9]+\||detail:|harness trouble|BUILD FAILED|did NOT reproduce" | cut -c1-400 | head -12
+  out=$(cd "$VS" && BSIM_REPO="$WT" BSIM_NO_EVIDENCE=1 ./check "$P" "${TIER:-quick}" 2>&1); rc=$?
+  echo "== $NAME $P exit=$rc"
+  echo "$out" | grep -E "^VIOLATION|^bsim: C[0-9]+\||detail:|harness trouble|BUILD FAILED|did NOT reproduce|probes at zero" | cut -c1-420 | head -10
 done
+git -C /repo worktree remove --force "$WT"
